@@ -26,6 +26,8 @@ type meshOpts struct {
 	tryInterval        time.Duration
 	extra              func(i int, spec *nodeSpec) // per node config tweaks
 	noFaults           bool
+	forceRelay         bool // node 0 is lighthouse+relay and every endpoint pair lacks a direct path
+	secondRelay        bool // the last node is a second relay (not a lighthouse), advertised by the endpoints too
 }
 
 type meshWorld struct {
@@ -74,6 +76,9 @@ func buildMesh(rc *sk.RunCtx, o meshOpts) *meshWorld {
 	mw.ca = newSimCA(cert.Version2, curve, "sim-ca", now.Add(-2*time.Hour), now.Add(2000*time.Hour), nil, nil, nil)
 	mw.useLH = o.allowLighthouse && tp.Chance(1, 2)
 	mw.useRelay = o.allowRelay && n >= 3 && tp.Chance(2, 3)
+	if o.forceRelay {
+		mw.useRelay = true
+	}
 	if mw.useRelay {
 		mw.useLH = true // relays are learned through the lighthouse; node 0 is lighthouse and relay
 	}
@@ -130,6 +135,12 @@ func buildMesh(rc *sk.RunCtx, o meshOpts) *meshWorld {
 			} else {
 				if mw.useRelay {
 					spec.relays = []string{overlayAddr(0, 0).Addr().String()}
+					if o.secondRelay && i == n-1 {
+						spec.relays = nil
+						spec.relay = true
+					} else if o.secondRelay {
+						spec.relays = append(spec.relays, overlayAddr(n-1, 0).Addr().String())
+					}
 				}
 				spec.lhHosts = []string{overlayAddr(0, 0).Addr().String()}
 				spec.static[overlayAddr(0, 0).Addr().String()] = []string{underlayAddr(0, 0).String()}
@@ -160,7 +171,10 @@ func buildMesh(rc *sk.RunCtx, o meshOpts) *meshWorld {
 		// topology: some endpoint pairs have no direct underlay path (not a fault: it also holds in the quiet suffix)
 		for i := 1; i < n; i++ {
 			for j := i + 1; j < n; j++ {
-				if tp.Chance(2, 3) {
+				if o.secondRelay && (i == n-1 || j == n-1) {
+					continue // the second relay is directly reachable
+				}
+				if tp.Chance(2, 3) || o.forceRelay {
 					w.blocked[[2]int{i, j}] = true
 					w.blocked[[2]int{j, i}] = true
 				}
